@@ -207,59 +207,10 @@ Definition near_case (c : case) : bool :=
   | Panic _ => false
   end.
 
-(** Known findings (see /verif/known_findings.txt).
-    1 (F12): the Kalman servo's frequency command exceeds max_freq_offset by at
-             most one ulp: every other clause holds, and every frequency command
-             is finite with |f| <= next_up(bound).
-    2 (F13): the basic filter commands a NaN frequency; the first NaN appears in
-             an event whose local and master intervals are both zero (0/0). *)
-Definition kalman_events_ok_relaxed (cfg : kcfg) (es : list event) (os : list obs) : bool :=
-  kalman_events_ok (PrimFloat.next_up (c_max_freq_offset cfg)) (c_step_threshold cfg) true es os.
-
-(* model state before event number n (None if something panicked earlier) *)
-Fixpoint state_before (dbg : bool) (k : fkind) (s : fstate) (es : list event) (rs : list reply) (n : nat)
-  : option (fstate * event) :=
-  match es, n with
-  | [], _ => None
-  | e :: _, O => Some (s, e)
-  | e :: es', S n' =>
-      let '(s', r', _) := run_event exp_eval dbg k s e rs in
-      match s' with
-      | Some s'' => state_before dbg k s'' es' r' n'
-      | None => None
-      end
-  end.
-Fixpoint first_bad_basic (os : list obs) (n : nat) : option nat :=
-  match os with
-  | [] => None
-  | o :: os' => if forallb basic_cmd_ok (o_cmds o) then first_bad_basic os' (S n) else Some n
-  end.
-(* both intervals of the basic filter's frequency estimate are zero *)
-Definition basic_zero_over_zero (dbg : bool) (s : bstate) (m : meas) : bool :=
-  match b_last_step s, m_offset m with
-  | Some (l_time, l_offset, l_corr), Some offset =>
-      match basic_intervals dbg (m_time m) offset l_time l_offset l_corr with
-      | Ok (d2, d3) => (d2 =? 0) && (d3 =? 0)
-      | Panic _ => false
-      end
-  | _, _ => false
-  end.
-
-Definition kf_C13 (c : case) : Z :=
-  let '(k, rel, es, rs, os) := c in
-  match k with
-  | FKalman cfg =>
-      if valid_cfg cfg && kalman_events_ok_relaxed cfg es os then 1 else 0
-  | FBasic g =>
-      match first_bad_basic os 0 with
-      | Some n =>
-          match state_before (negb rel) k (SB (basic_new g)) es rs n with
-          | Some (SB s, EMeas m) => if basic_zero_over_zero (negb rel) s m then 2 else 0
-          | _ => 0
-          end
-      | None => 0
-      end
-  end.
+(** Known findings: none.  F12 (one-ulp overshoot of the Kalman frequency command)
+    and F13 (BasicFilter NaN command) are fixed in /repo (4d80470, 3d2d7f9); a
+    regression of either is reported as a plain violation. *)
+Definition kf_C13 (c : case) : Z := 0.
 
 Fixpoint obs_list_eqb (a b : list obs) : bool :=
   match a, b with
